@@ -629,6 +629,8 @@ func c04Objects() []CV {
 		cvO("req", cvI(1), "list", cvL(cvI(1), cvNul)), cvO("req", cvI(1), "list", cvL(cvI(1), cvI(4294967297))), cvO("req", cvI(1), "nested", cvO("req", cvI(2))),
 		cvO("req", cvI(1), "nested", cvO()), cvO("req", cvS("a")), cvO("req", cvI(4294967297)), cvO("req", cvI(1), "en", cvE("RED")), cvO("req", cvI(1), "en", cvE("PURPLE")),
 		cvO("req", cvI(1), "fl", CV{K: cvFloat, F: 1e40, Text: "1e40"}), cvO("req", cvF(1.5)),
+		// an undeclared field whose value is null (at the top and one level down): undeclared all the same
+		cvO("req", cvI(1), "zz", cvNul), cvO("req", cvI(1), "nested", cvO("req", cvI(2), "zz", cvNul)), cvO("zz", cvNul),
 	}
 }
 
